@@ -360,3 +360,272 @@ Proof.
   { cbn [value_to_json]. rewrite Hres. exact Hj. }
   unfold context_from_json. rewrite (value_rt _ _ Hwf Hv). cbn [jbind]. rewrite Hev. reflexivity.
 Qed.
+
+(* ---------------------------------------------------------------- the repaired context serialiser *)
+Lemma context_rt_fixed : forall pairs j,
+  wf_rval (RRecord pairs) = true -> rval_evaluable (RRecord pairs) = true ->
+  context_to_json_fixed pairs = JOk j -> context_from_json None j = JOk pairs.
+Proof.
+  intros pairs j Hwf Hev Hj. unfold context_to_json_fixed in Hj.
+  destruct (existsb reserved_key (map fst pairs)) eqn:Hres; [discriminate|].
+  exact (context_rt pairs j Hres Hwf Hev Hj).
+Qed.
+
+(* ---------------------------------------------------------------- entity level *)
+Definition wf_pairs (l : list (str * rval)) : bool :=
+  forallb (fun kv => wf_rval (snd kv) && rval_evaluable (snd kv)) l.
+
+(* an entity as a store holds it: valid type names, well-formed evaluable attribute and tag
+   values, and an action entity only has action ancestors *)
+Definition wf_entity (e : jentity) : bool :=
+  valid_name (jty (je_uid e)) && wf_pairs (je_attrs e) && wf_pairs (je_tags e) &&
+  forallb (fun p => valid_name (jty p) &&
+                    (negb (is_action_type (jty (je_uid e))) || is_action_type (jty p))) (je_anc e).
+
+Lemma emapM_nil {A B} (f : A -> er B) : emapM f [] = EOk [].
+Proof. reflexivity. Qed.
+Lemma emapM_cons {A B} (f : A -> er B) x l :
+  emapM f (x :: l) = (de y <- f x; de ys <- emapM f l; EOk (y :: ys)).
+Proof. reflexivity. Qed.
+
+Lemma parse_ref_juid : forall u, valid_name (jty u) = true -> parse_entity_ref (juid_json u) = JOk u.
+Proof. intros [t i] H. cbn in *. rewrite H. reflexivity. Qed.
+
+Lemma pairs_back (f : str * json -> er (str * rval)) :
+  (forall kv, f kv = (de v <- lift (parse_generic (snd kv)); EOk (fst kv, v))) ->
+  forall l js, wf_pairs l = true -> jmapV value_to_json l = JOk js -> emapM f js = EOk l.
+Proof.
+  intros Hf. unfold jmapV. induction l as [|[k v] l IH]; intros js Hwf Hjs.
+  - rewrite jmapM_nil in Hjs. inversion Hjs. reflexivity.
+  - rewrite jmapM_cons in Hjs. cbn [snd fst] in Hjs.
+    destruct (value_to_json v) as [jv|e] eqn:Ev; [|discriminate]. cbn [jbind] in Hjs.
+    destruct (jmapM (fun kv => dj y <- value_to_json (snd kv); JOk (fst kv, y)) l) as [js'|e] eqn:El; [|discriminate].
+    cbn [jbind] in Hjs. inversion Hjs; subst js.
+    unfold wf_pairs in Hwf. cbn [forallb snd] in Hwf. apply andb_true_iff in Hwf. destruct Hwf as [Hv Hl].
+    apply andb_true_iff in Hv. destruct Hv as [Hv _].
+    rewrite emapM_cons, Hf. cbn [snd fst].
+    pose proof (value_rt v jv Hv Ev) as Hrt. unfold json_to_value in Hrt. rewrite Hrt. cbn [lift ebind].
+    rewrite (IH js' Hl eq_refl). reflexivity.
+Qed.
+
+Lemma jmapV_nil_inv {A B} (f : A -> jr B) l : jmapV f l = JOk [] -> l = [].
+Proof.
+  unfold jmapV. destruct l as [|kv l]; [reflexivity|]. rewrite jmapM_cons.
+  destruct (f (snd kv)); cbn [jbind]; [|discriminate].
+  destruct (jmapM _ l); cbn [jbind]; discriminate.
+Qed.
+
+Lemma parents_back : forall uid anc,
+  forallb (fun p => valid_name (jty p) && (negb (is_action_type (jty uid)) || is_action_type (jty p))) anc = true ->
+  emapM (parse_parent uid) (map juid_json anc) = EOk anc.
+Proof.
+  intros uid. induction anc as [|p anc IH]; intros H; [reflexivity|].
+  cbn [forallb] in H. apply andb_true_iff in H. destruct H as [Hp Hrest].
+  apply andb_true_iff in Hp. destruct Hp as [Hv Ha].
+  cbn [map]. rewrite emapM_cons. unfold parse_parent at 1. rewrite (parse_ref_juid p Hv). cbn [lift ebind].
+  destruct (is_action_type (jty uid)); cbn [negb orb andb] in *.
+  - rewrite Ha. cbn [negb]. cbn [ebind]. rewrite (IH Hrest). reflexivity.
+  - cbn [ebind]. rewrite (IH Hrest). reflexivity.
+Qed.
+
+Lemma evaluable_pairs : forall l, wf_pairs l = true -> forallb (fun kv => rval_evaluable (snd kv)) l = true.
+Proof.
+  intros l H. unfold wf_pairs in H. rewrite forallb_forall in *. intros kv Hin.
+  specialize (H kv Hin). apply andb_true_iff in H. tauto.
+Qed.
+
+(* c10_entity_rt *)
+Lemma entity_rt : forall e j, wf_entity e = true -> entity_to_json e = JOk j -> entity_from_json None j = EOk e.
+Proof.
+  intros [uid attrs tags anc] j Hwf Hj. unfold wf_entity in Hwf. cbn [je_uid je_attrs je_tags je_anc] in Hwf.
+  apply andb_true_iff in Hwf. destruct Hwf as [Hwf Hanc]. apply andb_true_iff in Hwf. destruct Hwf as [Hwf Htags].
+  apply andb_true_iff in Hwf. destruct Hwf as [Huid Hattrs].
+  unfold entity_to_json in Hj. cbn [je_uid je_attrs je_tags je_anc] in Hj.
+  destruct (jmapV value_to_json attrs) as [ajs|e1] eqn:Ea; [|discriminate]. cbn [jbind] in Hj.
+  destruct (jmapV value_to_json tags) as [tjs|e2] eqn:Et; [|discriminate]. cbn [jbind] in Hj.
+  inversion Hj; subst j. clear Hj.
+  pose proof (pairs_back (parse_attr NoSchemaInfo) (fun kv => eq_refl) attrs ajs Hattrs Ea) as Pa.
+  pose proof (pairs_back (parse_tag NoSchemaInfo) (fun kv => eq_refl) tags tjs Htags Et) as Pt.
+  pose proof (parents_back uid anc Hanc) as Pp.
+  pose proof (evaluable_pairs attrs Hattrs) as Eva. pose proof (evaluable_pairs tags Htags) as Evt.
+  destruct tjs as [|t0 tjs'].
+  - apply jmapV_nil_inv in Et. subst tags.
+    cbn [app entity_from_json].
+    change (lookup k_uid [(k_attrs, JObj ajs); (k_parents, JArr (map juid_json anc)); (k_uid, juid_json uid)])
+      with (Some (juid_json uid)).
+    change (lookup k_attrs [(k_attrs, JObj ajs); (k_parents, JArr (map juid_json anc)); (k_uid, juid_json uid)])
+      with (Some (JObj ajs)).
+    change (lookup k_parents [(k_attrs, JObj ajs); (k_parents, JArr (map juid_json anc)); (k_uid, juid_json uid)])
+      with (Some (JArr (map juid_json anc))).
+    change (lookup k_tags [(k_attrs, JObj ajs); (k_parents, JArr (map juid_json anc)); (k_uid, juid_json uid)])
+      with (@None json).
+    cbv beta iota.
+    rewrite (parse_ref_juid uid Huid). cbn [lift ebind]. rewrite Pa. cbn [ebind]. rewrite emapM_nil. cbn [ebind].
+    rewrite Pp. cbn [ebind]. rewrite Eva. reflexivity.
+  - cbn [app entity_from_json].
+    set (o := [(k_attrs, JObj ajs); (k_parents, JArr (map juid_json anc)); (k_tags, JObj (t0 :: tjs')); (k_uid, juid_json uid)]).
+    change (lookup k_uid o) with (Some (juid_json uid)).
+    change (lookup k_attrs o) with (Some (JObj ajs)).
+    change (lookup k_parents o) with (Some (JArr (map juid_json anc))).
+    change (lookup k_tags o) with (Some (JObj (t0 :: tjs'))).
+    cbv beta iota.
+    rewrite (parse_ref_juid uid Huid). cbn [lift ebind]. rewrite Pa. cbn [ebind]. rewrite Pt. cbn [ebind].
+    rewrite Pp. cbn [ebind]. rewrite Eva, Evt. reflexivity.
+Qed.
+
+(* ---------------------------------------------------------------- implicit = explicit, all types *)
+From Cedar Require Import ValueProofs.
+
+Fixpoint sty_ind' (P : sty -> Prop)
+  (Hb : P STBool) (Hl : P STLong) (Hs : P STString) (Hes : P STEmptySet)
+  (Hset : forall e, P e -> P (STSet e))
+  (Hrec : forall attrs o, Forall (fun a => P (fst (snd a))) attrs -> P (STRecord attrs o))
+  (Hent : forall t, P (STEntity t)) (Hext : forall n, P (STExt n))
+  (t : sty) {struct t} : P t :=
+  match t with
+  | STBool => Hb
+  | STLong => Hl
+  | STString => Hs
+  | STEmptySet => Hes
+  | STSet e => Hset e (sty_ind' P Hb Hl Hs Hes Hset Hrec Hent Hext e)
+  | STRecord attrs o =>
+      Hrec attrs o
+        ((fix go (l : list (str * (sty * bool))) : Forall (fun a => P (fst (snd a))) l :=
+            match l with
+            | [] => Forall_nil _
+            | a :: l' =>
+                Forall_cons a
+                  (match a as a0 return P (fst (snd a0)) with
+                   | (k, (t', r)) => sty_ind' P Hb Hl Hs Hes Hset Hrec Hent Hext t'
+                   end) (go l')
+            end) attrs)
+  | STEntity n => Hent n
+  | STExt n => Hext n
+  end.
+
+(* `variant t v j`: j is a JSON form of the value v of type t, with a free choice at every node
+   between the implicit forms ({type,id}; bare string; {fn,arg}) and the explicit escapes, inside
+   sets and (closed) records with optional attributes present or absent *)
+Inductive variant : sty -> rval -> json -> Prop :=
+| V_bool b : variant STBool (RBool b) (JBool b)
+| V_long z : in_i64 z = true -> variant STLong (RLong z) (JInt z)
+| V_string s : variant STString (RString s) (JStr s)
+| V_ent_impl t u : valid_name (jty u) = true -> variant (STEntity t) (REntity u) (juid_json u)
+| V_ent_expl t u : valid_name (jty u) = true ->
+    variant (STEntity t) (REntity u) (JObj [(k_entity, juid_json u)])
+| V_ext_bare n c s : In (n, c) ext_constructors -> variant (STExt n) (RCall c [RString s]) (JStr s)
+| V_ext_fnarg n c s : In (n, c) ext_constructors ->
+    variant (STExt n) (RCall c [RString s]) (JObj [(k_fn, JStr c); (k_arg, JStr s)])
+| V_ext_expl n c s : In (n, c) ext_constructors ->
+    variant (STExt n) (RCall c [RString s]) (JObj [(k_extn, JObj [(k_fn, JStr c); (k_arg, JStr s)])])
+| V_set e vs js : Forall2 (variant e) vs js -> variant (STSet e) (RSet vs) (JArr js)
+| V_rec attrs fs o : NoDup (map fst attrs) -> rec_variant attrs fs o ->
+    variant (STRecord attrs false) (RRecord fs) (JObj o)
+with rec_variant : list (str * (sty * bool)) -> list (str * rval) -> list (str * json) -> Prop :=
+| RV_nil : rec_variant [] [] []
+| RV_present k t req attrs v j fs o :
+    variant t v j -> rec_variant attrs fs o ->
+    rec_variant ((k, (t, req)) :: attrs) ((k, v) :: fs) ((k, j) :: o)
+| RV_absent k t attrs fs o :
+    lookup k o = None -> rec_variant attrs fs o ->
+    rec_variant ((k, (t, false)) :: attrs) fs o.
+
+Definition rec_go (o : list (str * json)) : list (str * (sty * bool)) -> jr (list (str * rval)) :=
+  fix go (l : list (str * (sty * bool))) : jr (list (str * rval)) :=
+    match l with
+    | [] => JOk []
+    | (k, (t', req)) :: l' =>
+        match lookup k o with
+        | Some x => dj v <- parse_ty t' x; dj vs <- go l'; JOk ((k, v) :: vs)
+        | None => if req then JErr EMissingRequiredRecordAttr else go l'
+        end
+    end.
+
+Lemma parse_ty_record attrs open o :
+  parse_ty (STRecord attrs open) (JObj o) =
+  (dj vs <- rec_go o attrs;
+   if negb open && existsb (fun kv => negb (has_key (fst kv) attrs)) o
+   then JErr EUnexpectedRecordAttr else JOk (RRecord vs)).
+Proof. reflexivity. Qed.
+
+Lemma rec_go_ok : forall ofull attrs fs o,
+  rec_variant attrs fs o ->
+  Forall (fun a => forall v j, variant (fst (snd a)) v j -> parse_ty (fst (snd a)) j = JOk v) attrs ->
+  NoDup (map fst attrs) ->
+  (forall k, In k (map fst attrs) -> lookup k ofull = lookup k o) ->
+  rec_go ofull attrs = JOk fs.
+Proof.
+  intros ofull attrs fs o H. induction H as [|k t req attrs v j fs o Hv Hr IH|k t attrs fs o Hk Hr IH];
+    intros HF Hnd Hinv.
+  - reflexivity.
+  - cbn [rec_go]. rewrite (Hinv k (or_introl eq_refl)). cbn [lookup]. rewrite str_eqb_refl.
+    inversion HF as [|? ? Ha HF']; subst. cbn [fst snd] in Ha. rewrite (Ha v j Hv). cbn [jbind].
+    cbn [map fst] in Hnd. inversion Hnd as [|? ? Hnotin Hnd']; subst.
+    fold (rec_go ofull). rewrite IH; [reflexivity|exact HF'|exact Hnd'|].
+    intros k' Hin. rewrite (Hinv k' (or_intror Hin)). cbn [lookup].
+    destruct (str_eqb k' k) eqn:E; [|reflexivity].
+    apply str_eqb_eq in E. subst k'. contradiction.
+  - cbn [rec_go]. rewrite (Hinv k (or_introl eq_refl)). rewrite Hk.
+    inversion HF as [|? ? Ha HF']; subst. cbn [map fst] in Hnd. inversion Hnd as [|? ? Hnotin Hnd']; subst.
+    fold (rec_go ofull). apply IH; [exact HF'|exact Hnd'|].
+    intros k' Hin. apply Hinv. right. exact Hin.
+Qed.
+
+Lemma has_key_cons {V} k k' (x : V) l : has_key k l = true -> has_key k ((k', x) :: l) = true.
+Proof.
+  unfold has_key. cbn [lookup]. destruct (str_eqb k k'); [reflexivity|]. intros H. exact H.
+Qed.
+
+Lemma rec_variant_keys : forall attrs fs o, rec_variant attrs fs o ->
+  forall kv, In kv o -> has_key (fst kv) attrs = true.
+Proof.
+  intros attrs fs o H. induction H as [|k t req attrs v j fs o Hv Hr IH|k t attrs fs o Hk Hr IH]; intros kv Hin.
+  - destruct Hin.
+  - destruct Hin as [E|Hin].
+    + subst kv. cbn [fst]. unfold has_key. cbn [lookup]. rewrite str_eqb_refl. reflexivity.
+    + apply has_key_cons. apply IH. exact Hin.
+  - apply has_key_cons. apply IH. exact Hin.
+Qed.
+
+Lemma variant_parse : forall t v j, variant t v j -> parse_ty t j = JOk v.
+Proof.
+  induction t using sty_ind'; intros v j Hv.
+  - inversion Hv; subst. reflexivity.
+  - inversion Hv as [|z Hz| | | | | | | |]; subst.
+    change (parse_ty STLong (JInt z)) with (parse_generic (JInt z)).
+    unfold parse_generic. cbn [json_to_cvj]. rewrite Hz. reflexivity.
+  - inversion Hv; subst. reflexivity.
+  - inversion Hv.
+  - (* set *)
+    inversion Hv as [| | | | | | | |e' vs js HF2|]; subst. cbn [parse_ty].
+    assert (Hl : jmapM (parse_ty t) js = JOk vs).
+    { clear Hv. induction HF2 as [|x y xs ys Hxy HF2 IH2]; [reflexivity|].
+      rewrite jmapM_cons, (IHt x y Hxy). cbn [jbind]. rewrite IH2. reflexivity. }
+    rewrite Hl. reflexivity.
+  - (* record *)
+    inversion Hv as [| | | | | | | | |attrs' fs ob Hnd Hrv]; subst.
+    rewrite parse_ty_record.
+    rewrite (rec_go_ok ob attrs fs ob Hrv H Hnd (fun k _ => eq_refl)). cbn [jbind negb andb].
+    destruct (existsb (fun kv => negb (has_key (fst kv) attrs)) ob) eqn:E; [|reflexivity].
+    apply existsb_exists in E. destruct E as [kv [Hin Hneg]].
+    rewrite (rec_variant_keys attrs fs ob Hrv kv Hin) in Hneg. discriminate.
+  - (* entity *)
+    inversion Hv; subst.
+    + apply (implicit_entity t u); assumption.
+    + apply (implicit_entity t u); assumption.
+  - (* extension *)
+    inversion Hv; subst.
+    + apply (implicit_ext n c s); assumption.
+    + apply (implicit_ext n c s); assumption.
+    + apply (implicit_ext n c s); assumption.
+Qed.
+
+(* c10_implicit_explicit *)
+Lemma implicit_explicit : forall t v j je,
+  variant t v j -> wf_rval v = true -> value_to_json v = JOk je ->
+  json_to_value (Some t) j = JOk v /\ json_to_value None je = JOk v.
+Proof.
+  intros t v j je Hv Hwf Hje. split.
+  - exact (variant_parse t v j Hv).
+  - exact (value_rt v je Hwf Hje).
+Qed.
